@@ -81,6 +81,38 @@ pub(crate) mod verif_vm {
         FiberParts { chunk, function, closure, fiber }
     }
 
+    /// Storage for one fiber and the objects it needs, kept in a local of the proof function
+    /// (see `verif_mem::Placed`): `let mut sa = FiberStore::empty(); let a = sa.init(code, arity);`.
+    /// Must not be moved after `init`.
+    pub(crate) struct FiberStore {
+        chunk: Option<crate::memory::verif_mem::Placed<Chunk>>,
+        function: Option<crate::memory::verif_mem::Placed<ObjFunction>>,
+        closure: Option<crate::memory::verif_mem::Placed<ObjClosure>>,
+        fiber: Option<crate::memory::verif_mem::Placed<RefCell<ObjFiber>>>,
+    }
+    impl FiberStore {
+        pub(crate) fn empty() -> Self {
+            FiberStore { chunk: None, function: None, closure: None, fiber: None }
+        }
+        pub(crate) fn init(&mut self, code: Vec<u8>, arity: usize) -> FiberParts {
+            use crate::memory::verif_mem::Placed;
+            self.chunk = Some(Placed::new(Chunk {
+                lines: vec![0; code.len()],
+                code,
+                constant_map: HashMap::with_hasher(crate::verif_stubs::random_state_stub()),
+                constants: Vec::new(),
+            }));
+            let chunk = self.chunk.as_mut().unwrap().gc();
+            self.function = Some(Placed::new(ObjFunction::new(Gc::dangling(), arity, 0, chunk, Gc::dangling())));
+            let function = self.function.as_mut().unwrap().gc();
+            self.closure = Some(Placed::new(ObjClosure::new(function, Vec::new(), Gc::dangling())));
+            let closure = self.closure.as_mut().unwrap().gc();
+            self.fiber = Some(Placed::new(RefCell::new(ObjFiber::new(Gc::dangling(), closure))));
+            let fiber = self.fiber.as_mut().unwrap().gc();
+            FiberParts { chunk, function, closure, fiber }
+        }
+    }
+
     /// Makes `f` the running fiber of `vm`, the way load_fiber leaves things.
     pub(crate) fn activate(vm: &mut Vm, f: &FiberParts) {
         vm.fiber = Some(f.fiber.as_root());
@@ -114,7 +146,8 @@ pub(crate) mod verif_vm {
         vm.stack_size()
     }
     /// The invariant the optimised build relies on: the raw active-fiber pointer denotes the rooted
-    /// fiber, and the cached ip/chunk are those of its top frame.
+    /// fiber, and the cached chunk is that of its top frame. (The cached ip runs ahead of the frame's
+    /// saved ip between switches; harnesses assert it explicitly right after a switch.)
     pub(crate) fn vm_cache_coherent(vm: &Vm) -> bool {
         match vm.fiber.as_ref() {
             None => false,
@@ -124,7 +157,7 @@ pub(crate) mod verif_vm {
                 let f = gc.borrow();
                 match f.frames.last() {
                     None => same,
-                    Some(fr) => same && vm.ip == fr.ip && vm.active_chunk == fr.closure.function.chunk,
+                    Some(fr) => same && vm.active_chunk == fr.closure.function.chunk,
                 }
             }
         }
